@@ -130,7 +130,7 @@ func genCross(r *vh.Rng, tier string) []crossCase {
 		targets = append(targets, &valgen.GT{Name: "k", Kind: k}, &valgen.GT{Name: "nk", Kind: k})
 	}
 	targets = append(targets, &valgen.GT{Name: "big"}, &valgen.GT{Name: "string"}, &valgen.GT{Name: "dur"})
-	always := []*valgen.GT{{Name: "big"}, {Name: "string"}, {Name: "k", Kind: "int64"}, {Name: "k", Kind: "uint64"}}
+	always := []*valgen.GT{{Name: "big"}, {Name: "string"}, {Name: "k", Kind: "int64"}, {Name: "k", Kind: "uint64"}, {Name: "k", Kind: "uint"}, {Name: "nk", Kind: "uint64"}}
 	extra := 2
 	if tier == "thorough" {
 		extra = len(targets)
